@@ -285,3 +285,13 @@ package discovery
 //@   ensures [same-seed-keeps-everything] isNilIface(ret(call (*sqlStore).findAndLockService #1).1)
 //@        && (ret(call (*sqlStore).findAndLockService #1).0.Seed == seed || len(ret(call (*sqlStore).findAndLockService #1).0.Seed) == 0) ==>
 //@        !did(call (*gorm.DB).Delete #1) && !did(call (*gorm.DB).Save #1)
+
+// ---- C16: a (re)start never resets a list: the row of a service (seed, last timestamp) is created only when there is none
+// (FirstOrCreate by id); existing rows are never written by the constructor (a batched Save would overwrite seed and
+// timestamp of every list while its presentations stay: clients in sync would miss new entries) ----
+//@ func newSQLStore
+//@   prop C16
+//@   call (*gorm.DB).FirstOrCreate #1 requires [a-list-row-is-created-only-when-there-is-none] arg(0) == db && arg(1) == any(&currentList) && currentList.ID == definition.ID
+//@        && len(arg(2)) == 2 && arg(2)[0] == any("id = ?") && arg(2)[1] == any(definition.ID)
+//@   ensures [existing-list-rows-are-never-overwritten-at-start] !didCallWith("(*gorm.DB).Save", 0, db) && !didCallWith("(*gorm.DB).Create", 0, db) && !didCallWith("(*gorm.DB).Updates", 0, db)
+//@   ensures [a-failed-row-fails-the-start] (did(call (*gorm.DB).FirstOrCreate #1) && !isNilIface(ret(call (*gorm.DB).FirstOrCreate #1).Error)) ==> !isNilIface(result.1)
